@@ -23,9 +23,10 @@ ok = (first.get("patch_applies") and first.get("suite_with_change", {}).get("rc"
 dest = VERIF / "seeded" / sid
 if ok:
     dest.mkdir(parents=True, exist_ok=True)
-    shutil.copy(seed / "patch.diff", dest / "patch.diff")
+    if (seed / "patch.diff").resolve() != (dest / "patch.diff").resolve():
+        shutil.copy(seed / "patch.diff", dest / "patch.diff")
     for n in ("demo.py", "demo_test.py", "test_demo.py"):
-        if (seed / n).exists():
+        if (seed / n).exists() and (seed / n).resolve() != (dest / n).resolve():
             shutil.copy(seed / n, dest / n)
     meta["breaks_property"] = prop
     meta["confirmed_by_coordinator"] = {
